@@ -70,6 +70,21 @@ def _c16(run, drv, rng, tier):
     props_c16.check(run, drv, rng, tier)
 
 
+def _c20(run, drv, rng, tier):
+    from . import props_c20
+    props_c20.check(run, drv, rng, tier)
+
+
+def _c10(run, drv, rng, tier):
+    from . import props_c10
+    props_c10.check(run, drv, rng, tier)
+
+
+def _c17(run, drv, rng, tier):
+    from . import props_c17
+    props_c17.check(run, drv, rng, tier)
+
+
 def _c13(run, drv, rng, tier):
     from . import props_c13
     props_c13.check(run, drv, rng, tier)
@@ -326,5 +341,37 @@ PROPS = {
                 "C text checked for well-formedness, NUL termination, return value; Python == C; distinct by feature tuple "
                 "(see tools/props_c16.NOTES.md)",
         "assumptions": PY_ASSUME + C_ASSUME + ["json.dumps, dataclasses.asdict and vsprintf as libraries are outside the model"],
+    },
+    "C20": {
+        "modules": ["BpModel.Props.C20"],
+        "theorems": ["Bp.C20.C20_clean_pascal", "Bp.C20.C20_clean_upper", "Bp.C20.C20_warns_lower_first", "Bp.C20.C20_warns_underscore",
+                     "Bp.C20.C20_warns_not_upper", "Bp.C20.C20_enum_zero", "Bp.C20.C20_advisory", "Bp.C20.C20_check_exit"],
+        "explore": _c20,
+        "correspondence": "CLI stderr / exit status / generated files with and without -q; lineno / token_col_start of every definition and reference vs positions computed from the source text",
+        "rule": "multi-file programs printed by the harness' own printer in conforming / one-per-line / wild layouts; name-perturbed "
+                "variants; one violating statement inserted at a random boundary of a random file (57 kinds); positions of all "
+                "definitions and references in-process; -c exit status; see tools/props_c20.NOTES.md; distinct by case tuple",
+        "assumptions": FRONT_ASSUME + ["snake_case (regular-expression cascade) is not modelled: the field-name rule is tied by correspondence only"],
+    },
+    "C10": {
+        "modules": ["BpModel.Props.C10"],
+        "theorems": ["Bp.C10.C10_emitted_once", "Bp.C10.C10_no_duplicate", "Bp.C10.C10_children_first", "Bp.C10.C10_sibling_order",
+                     "Bp.C10.C10_earlier_sibling_before"],
+        "explore": _c10,
+        "correspondence": "gcc / g++ (sizeof, offsetof static_asserts) / Python import+instantiate / static Go discipline on every generated output set",
+        "rule": "multi-file programs in fixed import shapes (single, pair, chain, triangle, diamond, wide) with nesting 1-4, per-file "
+                "c.name_prefix, options, names ending in digits, repeated nested names; configs c, c -O, c -O -F, py, go; "
+                "see tools/props_c10.NOTES.md; known deviations are routed to KNOWN-FINDING only while their witness re-confirms; "
+                "distinct by (shape, config, feature tuple)",
+        "assumptions": ["the verdict of gcc/g++/python beyond declare-before-use, uniqueness, include targets and layout is outside the model; Go is never compiled"],
+    },
+    "C17": {
+        "modules": ["BpModel.Props.C17"],
+        "theorems": ["Bp.C17.C17_refuse_ext", "Bp.C17.C17_refuse_lang", "Bp.C17.C17_refuse_F", "Bp.C17.C17_filter", "Bp.C17.C17_filter_sublist"],
+        "explore": _c17,
+        "correspondence": "real CLI invocations with / without -O, -F, --endian: exit status, stderr, files written, function texts and declarations diffed",
+        "rule": "see tools/props_c17.NOTES.md: programs with extensible markers in main / imported files, name subsets incl. nested "
+                "names and names that are substrings of others, c.name_prefix, c and go, all --endian values; distinct by case tuple",
+        "assumptions": ["the model Cli.main abstracts parser/linter/renderer results into a World record; its agreement with _main.py is established by the correspondence"],
     },
 }
